@@ -973,12 +973,23 @@ class Walker:
         ast.copy_location(binop, n)
         ast.fix_missing_locations(binop)
         outs = []
+        # x += y on a list / bytearray / set / dict (|=) changes the object x names in place - every
+        # other name of that object (a parameter it was copied from) sees the change
+        old_vals = []
+        if isinstance(n.target, ast.Name) and n.target.id in st.env and isinstance(n.op, (ast.Add, ast.BitOr, ast.BitAnd, ast.Sub, ast.BitXor, ast.Mult)):
+            old_vals = [st.env[n.target.id]]
         for s, k, p in self.expr(binop, st):
             if k != "val":
                 outs.append((s, k, p))
             else:
                 s = s.copy()
                 s.ev("augassign", self.site(n), type(n.op).__name__)
+                for ov in old_vals:
+                    ts = s.types(ov)
+                    immutable = ts is not None and ts <= (NUM | {"str", "bytes", "tuple", "NoneType", "frozenset"})
+                    rooted = isinstance(ov, tuple) and ov and (ov[0] in ("param", "sub", "attr", "global") or (ov[0] == "lit" and ov[1] in ("list", "dict", "set")))
+                    if rooted and not immutable and not is_const(ov):
+                        s.ev("mutcall", self.site(n), ov, "__iadd__", (p,))
                 outs.extend(self._assign_target(n.target, p, s, n))
         return outs
 
